@@ -46,7 +46,7 @@ def split_h(n, tiers, full=False, solver=None):
   sc = {'N': n}
   if full: sc['FULLKEYS'] = None
   return dict(name='sort_split_n%d%s' % (n, '_fullkeys' if full else ''), unit='sort', harness='h_split.c',
-       cbmc=['--unwind', str(n + 2)] + (['--sat-solver', solver] if solver else []),   # 32-bit keys at N=5: minisat gives no verdict in 10 min, cadical ~1-2 min
+       cbmc=['--unwind', str(n + 2)] + (['--sat-solver', solver] if solver else []),   # 32-bit keys: minisat needs 200 s (N=4) / ~50 min (N=5), cadical 12 s / ~1-2 min CPU
        scenarios=[sc], tiers=tiers, fail_over_unwind=True, timeout=3000 if (n > 8 or (full and n > 4)) else 900, mem_gb=8,
        desc='quick_sort_range splitting constructor = split_range (pseudo_median_of_nine pivot + partition loop) on an N-element array: '
             'pivot position inside the range, left = [0,j), right = [j+1,N) (pivot excluded from both, nothing outside touched), whole '
@@ -54,8 +54,8 @@ def split_h(n, tiers, full=False, solver=None):
        bounds={'N': n, 'keys': 'any signed 32-bit' if full else 'ranks 0..N-1 = every strict weak order on N elements (ties included)'})
 
 HARNESSES = (
-  [split_h(n, ['quick', 'thorough']) for n in (1, 2, 3, 4, 5, 6, 7, 8)] + [split_h(4, ['quick', 'thorough'], True)] +
-  [split_h(n, ['thorough']) for n in (9, 10, 11)] + [split_h(5, ['thorough'], True, solver='cadical')] + [
+  [split_h(n, ['quick', 'thorough']) for n in (1, 2, 3, 4, 5, 6, 7, 8)] + [split_h(4, ['quick', 'thorough'], True, solver='cadical')] +
+  [split_h(n, ['thorough']) for n in (9, 10)] + [split_h(5, ['thorough'], True, solver='cadical')] + [
   dict(name='sort_median3', unit='sort', harness='h_median.c', scenarios=[{'PART': 1}],
        desc='median_of_three: returns one of its three positions, and the element there is a median of the three',
        bounds={'positions': 'any 3 of 4, may coincide', 'keys': 'any signed 32-bit'}),
@@ -138,7 +138,7 @@ HARNESSES = (
 
 MANIFEST = dict(
   level_text='Bounded symbolic execution (clang-14 IR -> tools/ir2c.py -> cbmc) of the real templates. Sort: the kernels of parallel_sort.h called '
-             'white-box on arrays of <= 8 (thorough 11) elements for every strict weak order (pivot selection, partition/split geometry and '
+             'white-box on arrays of <= 8 (thorough 10) elements for every strict weak order (pivot selection, partition/split geometry and '
              'permutation, pre-sortedness probe incl. chunk boundaries and the serial/parallel hand-over pair; pseudo_median_of_nine indices for every '
              '64-bit size). Reduce / deterministic reduce / scan: the real task classes (start_reduce, reduction_tree_node, fold_tree, all four '
              'partitioners; start_deterministic_reduce; start_scan, finish_scan, sum_node, final_sum) run by a sequential task-bag model of the '
